@@ -515,6 +515,72 @@ def rule_L01_convex(ctx):
     return res
 
 
+def rule_L03_dimensions(ctx):
+    """C15 (affine equivariance): dimensional analysis of every moving average. The stream carries the unit `price`; configuration
+    quantities and literals are pure numbers. next() may compare two quantities only when they have the same dimension and the same
+    behaviour under a translation of the stream (or a translation-invariant quantity with zero), and may add only quantities of the same
+    dimension: a test like `movement > EPSILON` or `value + 1e-9` behaves differently for a*x + b than for x."""
+    m = Model(ctx.facts())
+    f = m.f
+    res = RuleResult('L03', 'moving averages are dimensionally consistent: no comparison of a price-scaled quantity with an absolute constant, no sum of a price and a pure number')
+    ma_types = m.types_implementing(T_MA)
+    decided = 0
+    for impl in m.method_impls:
+        adt = m.adt_path_of_impl(impl)
+        if not adt or adt not in ma_types:
+            continue
+        short = adt.rsplit('::', 1)[-1]
+        nb = m.body(m.impl_fn_path(impl, 'new'))
+        xb = m.body(m.impl_fn_path(impl, 'next'))
+        if nb is None or xb is None or nb.arg_count != 2:
+            continue
+        pty = nb.local_ty(1)
+        if pty not in ('u8', 'u16', 'u32', 'u64'):
+            res.undecided.append('%s: parameter is not the period type' % short)
+            continue
+        ity = nb.local_ty(2).lstrip('&')
+        if not _float(ity):
+            res.undecided.append('%s: input is not a single value' % short)
+            continue
+        res.inst(short)
+        events = []
+        try:
+            wlin.PARAM_RANGE['kmin'], wlin.PARAM_RANGE['kmax'] = 1, {'u8': 127, 'u16': 32767}.get(pty, 32767)
+
+            def mk_new():
+                box = {'v': Aff(True, ONE, ZERO)}
+                return [_param_value(None, 0), Ref(box, 'v')]
+            states = []
+            for crun, cargs, cres in explore(f, nb, mk_new, limit=200):
+                events += [('new', e) for e in crun.dim_events]
+                if isinstance(cres, Obj) and cres.variant == 'Ok' and isinstance(cres.f.get('0'), Obj):
+                    states.append(cres.f['0'])
+            if not states:
+                raise Abstain('constructor returns no tracked state')
+            for s0 in states[:3]:
+                def mk_next(s0=s0):
+                    box = {'s': copy.deepcopy(s0), 'x': Aff(True, ONE, ZERO)}
+                    return [Ref(box, 's'), Ref(box, 'x')]
+                for run, args, out in explore(f, xb, mk_next, limit=400):
+                    events += [('next', e) for e in run.dim_events]
+            decided += 1
+        except Abstain as e:
+            res.undecided.append('%s: %s' % (short, e))
+        seen = set()
+        for where, e in events:
+            k = (where,) + tuple(str(x) for x in e[:2])
+            if k in seen:
+                continue
+            seen.add(k)
+            if e[0] == 'compare':
+                msg = '%s::%s compares %s with %s (%s): the two sides do not have the same dimension / behaviour under translation, so the test comes out differently for a*x + b than for x' % (short, where, e[2], e[3], e[1])
+            else:
+                msg = '%s::%s adds quantities of different dimension (%s and %s)' % (short, where, e[1], e[2])
+            res.violate('%s|%s|%s' % (short, where, e[0]), msg, xb.file if where == 'next' else nb.file, xb.line if where == 'next' else nb.line)
+    res.floor('moving averages analysed', 12, decided)
+    return res
+
+
 def rule_L01_c15(ctx):
     return _run(ctx, 'C15')
 
